@@ -270,6 +270,33 @@ func (g *Gen) settle(subs []*Sub) {
 	}
 }
 
+// avoidBoundaries (twin runs): never pull while a lease or retention boundary of
+// the subscription may fall into the pull - whether the message is included
+// would then depend on microseconds, which the two twins do not share. Jumps
+// are decided from the model alone, so both twins take the same ones.
+func (g *Gen) avoidBoundaries(s *Sub) {
+	const margin = 3 * time.Millisecond
+	for iter := 0; iter < 8; iter++ {
+		lo := g.W.now().Add(-margin)
+		hi := g.W.now().Add(12*time.Millisecond + margin) // the next operation slot
+		var target time.Time
+		for _, d := range s.Dels {
+			if d.State != Out {
+				continue
+			}
+			for _, iv := range []Iv{d.Lease, d.Exp} {
+				if !iv.Lo.After(hi) && !iv.Hi.Before(lo) && iv.Hi.After(target) {
+					target = iv.Hi
+				}
+			}
+		}
+		if target.IsZero() {
+			return
+		}
+		g.W.Jump(target.Sub(g.W.now()) + 2*margin)
+	}
+}
+
 func (g *Gen) allSubs() []*Sub {
 	var out []*Sub
 	for _, s := range g.W.Subs {
@@ -349,6 +376,9 @@ func (g *Gen) Step() {
 		if !dlDue && r.Intn(3) == 0 && !g.P.ProbeOnly {
 			max = 1 + r.Intn(3)
 		}
+		if g.P.ProbeOnly {
+			g.avoidBoundaries(s)
+		}
 		w.Pull(s.Name, max)
 	case "pull-wait":
 		if s == nil {
@@ -371,6 +401,9 @@ func (g *Gen) Step() {
 			w.Jump(d + 5*time.Millisecond)
 		}
 		g.settle([]*Sub{s})
+		if g.P.ProbeOnly {
+			g.avoidBoundaries(s)
+		}
 		w.Pull(s.Name, len(s.outstanding())+5)
 	case "ack":
 		if s == nil {
@@ -691,6 +724,9 @@ func (g *Gen) Drain() {
 				continue
 			}
 			g.settle([]*Sub{s})
+			if g.P.ProbeOnly {
+				g.avoidBoundaries(s)
+			}
 			rms := w.Pull(s.Name, len(s.outstanding())+5)
 			if len(rms) > 0 {
 				progressed = true
